@@ -28,6 +28,14 @@ def run(rep, tier, seed, replay):
     res = h.ask(reqs)
     parts = h.ask(["P " + P.hx[k] for k in built])
     pm = m.ask(["P " + P.hx[k] for k in built])
+    # the model of Token::fold_map (token::any, into_owned): the rebuilt tree, annotations dropped
+    fm_i = h.ask(["A 1 " + P.hx[k] for k in built])
+    fm_m = m.ask(["FM " + P.hx[k] for k in built])
+    for k, a, b in zip(built, fm_i, fm_m):
+        if a.startswith("ok ") and a[3:].split(" | ")[0] != b[3:]:
+            rep.violation("correspondence", "fold_map: the tree rebuilt by token::any vs the fold_map model", {"expr": exprs[k]}, impl=a[:300], model=b[:300])
+        elif a.startswith("ok "):
+            rep.stats["fold_map-tree-equals-model"] += 1
     findings, _ = common.load_findings("C19")
     finding_ids = {f["id"] for f in findings}
     for k, line, pl, pml in zip(built, res, parts, pm):
